@@ -8,32 +8,45 @@ macro "inv_open" h:ident : tactic => `(tactic|
            e_cas, e_adv, e_help, d_hd, d_nx, d_ldn2, d_tail, fifo, gens_tl, gens_hd, hi_fresh, pre_ok, no_uaf⟩ := $h
    simp only [HoldsTl, HoldsHd, Owns, Held, abs] at *))
 
+macro "inv_close" : tactic => `(tactic|
+  (constructor <;> (try simp only [tick, HoldsTl, HoldsHd, Owns, Held, abs, upd]) <;> grind))
+
+macro "st_inj" st:ident : tactic => `(tactic|
+  ((try simp only [Option.some.injEq, Prod.mk.injEq] at $st:ident); have hst := ($st).1; subst hst))
+
+/-- unfold the step, split all its tests, close the disabled branches, run the generic closer on the others -/
+macro "inv_auto" st:ident : tactic => `(tactic|
+  (simp only [step] at $st:ident
+   repeat' (split at $st:ident)
+   all_goals first | (simp at $st:ident; done) | (st_inj $st; inv_close)))
+
+/-- diagnosis: like `inv_auto` but leaves the clauses `grind` cannot close -/
+macro "inv_dbg" st:ident : tactic => `(tactic|
+  (simp only [step] at $st:ident
+   repeat' (split at $st:ident)
+   all_goals first | (simp at $st:ident; done) |
+     (st_inj $st; constructor <;> (try simp only [tick, HoldsTl, HoldsHd, Owns, Held, abs, upd]) <;> (first | grind | skip))))
+
 theorem inv_lock {c s s' t o} (h : Inv c s) (st : step c s t .lock = some (s', o)) : Inv c s' := by
-  inv_open h
-  simp only [step] at st
-  split at st
-  · simp at st
-  · split at st
-    · simp only [Option.some.injEq, Prod.mk.injEq] at st; obtain ⟨rfl, -⟩ := st
-      constructor <;> simp only [tick, HoldsTl, HoldsHd, Owns, Held, abs, upd] <;> grind
-    · simp at st
+  inv_open h; inv_auto st
 
 theorem inv_unlock {c s s' t o} (h : Inv c s) (st : step c s t .unlock = some (s', o)) : Inv c s' := by
-  inv_open h
-  simp only [step] at st
-  split at st
-  · split at st
-    · simp only [Option.some.injEq, Prod.mk.injEq] at st; obtain ⟨rfl, -⟩ := st
-      constructor <;> simp only [tick, HoldsTl, HoldsHd, Owns, Held, abs, upd] <;> grind
-    · simp at st
-  · simp at st
+  inv_open h; inv_auto st
 
 theorem inv_ldTail {c s s' t o} (h : Inv c s) (st : step c s t .ldTail = some (s', o)) : Inv c s' := by
-  inv_open h
-  simp only [step] at st
-  split at st
-  · simp only [Option.some.injEq, Prod.mk.injEq] at st; obtain ⟨rfl, -⟩ := st
-    constructor <;> simp only [tick, HoldsTl, HoldsHd, Owns, Held, abs, upd] <;> grind
-  · simp at st
+  inv_open h; inv_auto st
+
+theorem inv_deqCall {c s s' t o} (h : Inv c s) (st : step c s t .deqCall = some (s', o)) : Inv c s' := by
+  inv_open h; inv_auto st
+
+theorem inv_ldHead {c s s' t o} (h : Inv c s) (st : step c s t .ldHead = some (s', o)) : Inv c s' := by
+  have head_in := seg_head_mem h.seg h.tail_in
+  inv_open h; inv_auto st
+
+theorem inv_destroy {c s s' t o} (h : Inv c s) (st : step c s t .destroy = some (s', o)) : Inv c s' := by
+  inv_open h; inv_auto st
+
+theorem inv_ldTailD {c s s' t o} (h : Inv c s) (st : step c s t .ldTailD = some (s', o)) : Inv c s' := by
+  inv_open h; inv_auto st
 
 end UrcuVerif.Lfq
